@@ -1094,7 +1094,7 @@ class MetaTermMixin(object):
                     continue
 
                 # how many values does this term get?
-                n = np.atleast_1d(getattr(term, name)).size
+                n = np.atleast_1d(flatten(getattr(term, name))).size
 
                 # get the next n values and set them on this term
                 vals = [value.pop() for _ in range(n)][::-1]
